@@ -2002,3 +2002,82 @@ func commaResetRule(R string) RuleFunc {
 		}
 	}
 }
+
+var eofNewlineTable = map[string]string{}
+
+// eofNewlineRule: the end of the input and a line end followed by the end of the input get the same verdict.
+func eofNewlineRule(R string) RuleFunc {
+	return func(c *core.Ctx) {
+		c.Rule(R, "on the pushdown model of the schema scanner (the one C03.subset explores), over every configuration reachable with the bytes { } [ ] : , \" \\ a 1 - . @ | SP LF (no annotations or comments) up to nesting depth 2: the scanner accepts the end of the input in a configuration exactly when it accepts a line end followed by the end of the input. A text that is complete stays complete when a line break is appended, and a text that is refused at its end is not rescued by one - otherwise Len(S) exists for S+LF but S itself is refused (prefix acceptance), and a trailing blank line changes the verdict")
+		c.Floor(R, 1)
+		jm, m, initial, fields, ok := newJSModel(c, R)
+		if !ok {
+			return
+		}
+		alphabet := []int{'{', '}', '[', ']', ':', ',', '"', '\\', 'a', '1', '-', '.', '@', '|', ' ', '\n'}
+		type item struct {
+			ic jsCfg
+			w  string
+		}
+		start := item{jsCfg{implCfg: implCfg{step: initial, fields: fields}}, ""}
+		seen := map[string]bool{start.ic.key(): true}
+		queue := []item{start}
+		undecided := 0
+		type div struct{ what, detail, pos string }
+		found := map[string]div{}
+		var order []string
+		for len(queue) > 0 && len(seen) < 60000 {
+			it := queue[0]
+			queue = queue[1:]
+			fpos := c.P.Pos(m.states[it.ic.step].Pos())
+			accE, whyE := jm.acceptsEOFJS(it.ic)
+			nl, okNL, whyNL := jm.stepJS(it.ic, '\n')
+			if whyE == "" && whyNL == "" {
+				accL := false
+				if okNL {
+					a, w := jm.acceptsEOFJS(nl)
+					if w != "" {
+						undecided++
+					} else {
+						accL = a
+					}
+				}
+				if accE != accL {
+					key := core.F("eofnl:%s/stack=%s", it.ic.step, strings.Join(topN(it.ic.stack, 2), ","))
+					if _, dup := found[key]; !dup {
+						order = append(order, key)
+						found[key] = div{core.F("end of input in state %s (top of stack %v)", it.ic.step, topN(it.ic.stack, 2)),
+							core.F("after %q the end of the input is accepted: %v, a line end followed by the end of the input: %v", it.w, accE, accL), fpos}
+					}
+				}
+			} else {
+				undecided++
+			}
+			for _, b := range alphabet {
+				ni, iok, why := jm.stepJS(it.ic, b)
+				if why != "" {
+					undecided++
+					continue
+				}
+				if !iok || len(ni.rts) > maxRTS || len(ni.stack) > 8 || len(ni.ctxStack) > 3 || len(it.w) > 14 {
+					continue
+				}
+				if k := ni.key(); !seen[k] {
+					seen[k] = true
+					queue = append(queue, item{ni, it.w + string(rune(b))})
+				}
+			}
+		}
+		sort.Strings(order)
+		for _, k := range order {
+			d := found[k]
+			if r, ok := eofNewlineTable[k]; ok {
+				c.Tabled(R, k, d.pos, d.what, r+" ["+d.detail+"]")
+			} else {
+				c.Bad(R, k, d.pos, d.what, d.detail+": a trailing line break changes the verdict")
+			}
+		}
+		c.OKd(R, "explored", "-", core.F("%d configurations explored", len(seen)), core.F("%d divergences, %d steps not decided by the model (skipped)", len(order), undecided))
+		c.Extra[R+".configurations"] = len(seen)
+	}
+}
